@@ -81,4 +81,29 @@ CLAIMS = {
                  "sampled on 1-4D histograms; bins / contents / errors2 must equal the numpy-indexed source arrays, contiguous slices conserve total+under+overflow, "
                  "dropped axes drop their names, invalid expressions are refused, the source is untouched, the selection's edge representations agree. Exploration."),
     },
+    "C07": {
+        "technique": "consistency audit of every binning object produced (all representations, copy, ==, slicing) + rule oracles per factory under seeded data",
+        "text": ("Data over 14 orders of magnitude x every bin specification (int, range, numpy, fixed_width, pretty, integer, quantile, exponential, edges, pairs, "
+                 "bin-count rules), reached through h1, calculate_1d_bins and the factories; each resulting binning is audited (pair / edge / masked-edge forms, counts, "
+                 "first/last edge, is_consecutive, is_regular, copy, ==, slices, as_static) and compared with its rule (numpy.histogram_bin_edges, textbook bin-count "
+                 "formulas and quantiles, grid alignment in ulps, pretty family / nearness, geometric edges) and with coverage of its data; invalid edge arrays must raise. Exploration."),
+    },
+    "C08": {
+        "technique": "round-trip monitor on every observed serialisation (parse, compare attribute by attribute bit-exactly, re-serialise) + version-gate probes",
+        "text": ("Histograms of every class x binning type x dtype x missed values / NaN markers / custom errors / metadata / adaptivity / keep_missed, and collections, "
+                 "are serialised (to_json, save_json, files + load_json), parsed and compared bit-exactly through public attributes; the parsed object is serialised again and "
+                 "the documents compared; documents declaring required versions around the running one must be accepted or refused. Exploration."),
+    },
+    "C15": {
+        "technique": "inverse-formula oracle on Class.transform + exact path-consistency monitor over facade / fill / fill_n / find_bin (raw and transformed=True)",
+        "text": ("Points in all quadrants / octants, on axes, at the origin and with signed zeros are transformed (inverse formulas and ranges checked with the math module) and "
+                 "entered through every path of the six special classes; all paths must yield identical contents and the math-module bin for points away from edges; caller "
+                 "arrays must stay untouched; projections must have the mapped class and marginal contents; wrong dimensionality must be refused. Exploration."),
+    },
+    "C16": {
+        "technique": "closed-form geometry oracle (math module) on bin_sizes / densities / edges / centres / widths / cumulative values of constructed histograms",
+        "text": ("Histograms of every class over irregular bins (partial and full angular ranges) with arbitrary contents: bin_sizes vs the statement's formulas, "
+                 "densities * bin_sizes == frequencies, additivity under merge_bins, totals vs the measure of the covered region, edge / centre / width accessors in 1D, "
+                 "per-axis and mesh forms, cumulative_frequencies as running sum ending at total. Exploration."),
+    },
 }
